@@ -149,6 +149,10 @@ def receivers() -> Dict[str, Callable[[], Any]]:
         # built through bind.g_dense: the array layout presentation applies (incl. the tensor completed by assignment)
         return bind.g_dense({"shape": [2, 3, 2], "v": [1, 0, 3, 4, 0, 6, 7, 8, 0, 10, 11, 12]})
 
+    def slab():
+        # a tensor with a singleton mode: un-permuting modes of length 1 moves no data
+        return bind.g_dense({"shape": [2, 1, 3], "v": [1, 0, 3, 4, 5, 6]})
+
     def cube():
         return ttb.tensor(np.array([1., 2, 2, 0, 2, 0, 0, 5]).reshape((2, 2, 2), order="F"))
 
@@ -174,7 +178,7 @@ def receivers() -> Dict[str, Callable[[], Any]]:
 
     def counts():
         return ttb.tensor(np.array([1., 0, 3, 4, 0, 2, 1, 1, 0, 2, 5, 1]).reshape((2, 3, 2), order="F"))
-    return {"dense": dense, "cube": cube, "sparse": sparse, "ktensor": ktensor, "ttensor": ttensor, "sum": sumt,
+    return {"dense": dense, "slab": slab, "cube": cube, "sparse": sparse, "ktensor": ktensor, "ttensor": ttensor, "sum": sumt,
             "tenmat": tenmat, "sptenmat": sptenmat, "counts": counts}
 
 
@@ -224,6 +228,14 @@ def ops() -> Dict[str, Tuple[Tuple[str, ...], Callable]]:
     add("to_sptensor", ("dense", "sptenmat"), lambda o, m: o.to_sptensor())
     add("find", DS, lambda o, m: o.find())
     add("to_tenmat", ("dense", "ktensor"), lambda o, m: o.to_tenmat(m.idx([0])))
+    add("to_tenmat_mid", ("dense", "slab"), lambda o, m: o.to_tenmat(m.idx([1])))
+    add("to_tenmat_last", ("dense", "slab"), lambda o, m: o.to_tenmat(m.idx([2])))
+    add("to_tenmat_cmid", ("dense", "slab"), lambda o, m: o.to_tenmat(cdims=m.idx([1])))
+    add("to_tenmat_two", ("dense", "slab"), lambda o, m: o.to_tenmat(m.idx([1, 0])))
+    add("to_sptenmat_mid", ("sparse",), lambda o, m: o.to_sptenmat(m.idx([1])))
+    add("squeeze_slab", ("slab",), lambda o, m: o.squeeze())
+    add("permute_slab", ("slab",), lambda o, m: o.permute(m.idx([1, 0, 2])))
+    add("reshape_slab", ("slab",), lambda o, m: o.reshape((2, 3)))
     add("to_tenmat_rc", ("dense",), lambda o, m: o.to_tenmat(m.idx(list(range(1, N(o)))), m.idx([0])))
     add("to_sptenmat", ("sparse",), lambda o, m: o.to_sptenmat(m.idx([0])))
     add("spmatrix", ("sparse",), lambda o, m: o.reshape((o.shape[0], n(o) // o.shape[0])).spmatrix())
